@@ -61,7 +61,7 @@ theorem C03_shared_same (W : World P S V M) (hW : W.SetsValid) (debug : Bool) (f
   exact buildDerivationTree_shared_same W root rv s.st hinv terminal tree hbuild k t1 t2 h1 h2
 
 /-- a node that carries an id occurs at least twice, and the id is its index in the store -/
-theorem C03_shared_twice_partial (W : World P S V M) (hW : W.SetsValid) (debug : Bool) (fuel : Nat)
+theorem C03_shared_twice (W : World P S V M) (hW : W.SetsValid) (debug : Bool) (fuel : Nat)
     (root : P) (rv : V) (s : SolverState P S V M Pr) (tree : DerivationTree P S V M)
     (h : Reachable (E := E) W debug fuel root rv (s, .noSolution tree))
     (k : Nat) (t : DerivationTree P S V M) (hk : (some k, t) ∈ tree.derivedNodes) :
